@@ -3,7 +3,8 @@
 Per case: a valid program is built, assembled by asl into an image, the image is
 loaded into dasl (-binfile and Intel-hex -hexfile) with 1..4 entry addresses, and
 dasl's stdout is judged:
-  * dasl ends normally;
+  * dasl ends normally and works on the bytes that were loaded (its hex dump against the image);
+  * every entry address that holds an instruction of the program lies in a listed code area;
   * the listed code/data areas are pairwise disjoint and lie inside the loaded image;
   * stdout, preceded by a CPU statement, is accepted by asl;
   * the re-assembled image equals the original on every byte of the listed areas.
@@ -13,6 +14,8 @@ Programs come from three sources so that no single table is trusted:
   boot  self-bootstrapped: random bytes are disassembled, the instruction lines asl
         accepts become the instruction pool of a structured program;
   gold  the instruction lines of the golden sources t_87c800, t_68alias/t_6301, t_4004.
+  edge  boundary programs from a finite pool that is walked through completely in every run (relative jumps
+        with every displacement, page jumps at every place around a page end), see edge_pool().
 All programs have the same shape: routines that end in an instruction that does not
 fall through, data islands between routines, branches/calls only to instruction
 boundaries inside the image, 1..3 separately placed blocks, optional vector table.
@@ -28,7 +31,10 @@ LEVEL = 'exploration'
 RULE = ('case = one image assembled from a generated valid program (6800 / 4004 from ISA tables, all three CPUs from self-bootstrapped '
         'and golden-source instruction pools), disassembled via -binfile (one file per block, sometimes a block cut into two adjacent files) '
         'and via Intel-hex -hexfile (p2hex or an independent writer, 1..255 bytes per record) with 1..4 entry addresses '
-        '(plain, named, indirect through a vector); distinct = distinct (cpu, instruction shape, load route) whose bytes were '
+        '(plain, named, indirect through a vector); one sixth of the cases are boundary programs that walk through a fixed pool in every run: '
+        'every relative jump of the 6800 and 87C00 with every displacement of a key set (thorough: the whole range; JRS: all 32 values for T and F), '
+        '4004 JCN/ISZ at every place around a page end (including the last two bytes and the straddling position) with targets all over the page, '
+        'each in a part of its own with an entry address; distinct = distinct (cpu, instruction shape, load route) whose bytes were '
         'reproduced by the round trip; non-trivial = at least one code area was listed and compared')
 ASSUMPTIONS = ['dasl writes the source text to stdout and nothing else belongs there; the assembler needs only a CPU statement in front of it',
                'the hex dump comment at the end of each dasl line states the length of that line (used only to attribute a failure to a line)',
@@ -69,8 +75,17 @@ OUT_LIMIT_BLOCKS = 4096          # 512-byte blocks: dasl's stdout is cut at 2 Mi
 
 
 def plan(tier, seed):
-    n = 600 if tier == 'quick' else 15000
+    n = 500 if tier == 'quick' else 12500
     cases = []
+    # boundary programs: the whole pool of (relative jump, displacement) / (page jump, place in the page, target)
+    # combinations is walked through in every run, four per image; the seed only decides how they are grouped
+    nedge = 100 if tier == 'quick' else 2500
+    for cpu in ('4004', '87C00', '6800'):
+        pool = edge_pool(cpu, tier)
+        share = {'4004': 0.40, '87C00': 0.36, '6800': 0.24}[cpu]
+        k = int(nedge * share)
+        for j in range(k):
+            cases.append({'cpu': cpu, 'src': 'edge', 'k': j})
     # fixed proportions; the case index seeds everything else
     mix = [('87C00', 'boot')] * 5 + [('87C00', 'gold')] * 3 + \
           [('6800', 'isa')] * 3 + [('6800', 'boot')] * 2 + [('6800', 'gold')] * 1 + \
@@ -243,6 +258,8 @@ def shape(cpu, text):
             res.append(tk)
         ops = ''.join(res)
     elif cpu == '4004':
+        if mn in ('jcn', 'jcm'):
+            ops = re.sub(r'^[tczn]*,', 'COND,', ops)
         ops = re.sub(r'\br[0-9a-f]r[0-9a-f]\b', 'rp', ops)
         ops = re.sub(r'\br\d{1,2}p\b', 'rp', ops)
         ops = re.sub(r'\br(?:\d{1,2}|[a-f])\b', 'r', ops)
@@ -419,13 +436,8 @@ def build_isa_program(cpu, rng, out):
         if tk == 'rel8':
             cand = [j for j in starts if -128 <= items[j].addr - (a + 2) <= 127]
         elif tk == 'page8':
-            # asl evaluates a forward JCN target in the first pass as "here", and checks ISZ against the page of its
-            # second byte; both differ from the ISA only when the instruction sits in the last two bytes of a page,
-            # which is therefore not generated (it concerns the encoding property, not the round trip)
-            if (a & 0xff) >= 0xfe:
-                cand = []
-            else:
-                cand = [j for j in starts if (items[j].addr >> 8) == ((a + 2) >> 8)]
+            # the page is that of the instruction following the jump (also when the jump sits in the last bytes of a page)
+            cand = [j for j in starts if (items[j].addr >> 8) == ((a + 2) >> 8)]
         else:
             cand = list(starts)
         if isa['flow'] == 'call' and rng.random() < 0.7:
@@ -463,6 +475,164 @@ def build_isa_program(cpu, rng, out):
             vectors.append((base + 2 * k, j))
         blocks.append((base, g))
     return blocks, items, vectors, {'wrap': wrap}
+
+
+DISP8_KEY = [-128, -127, -126, -65, -64, -17, -16, -15, -3, -2, 0, 1, 2, 13, 14, 15, 16, 17, 63, 64, 126, 127]
+M68_BRANCHES = ['bra', 'bsr'] + sorted(c15_isa.M68_BCC)
+T870_JR = ['z', 'nz', 'cs', 'cc', 'le', 'gt', 't', 'f', 'eq', 'ne', 'lt', 'ge']
+
+
+def edge_pool(cpu, tier):
+    """finite pool of boundary situations; every run walks through all of it
+    6800 : ('rel', mnemonic, d)        every displacement of the key set (thorough: -128..127) with rotating mnemonics
+    87C00: ('jrs', cond, d)            all 32 displacements for T and F
+           ('jr', cond|None, d)        key set / whole range, conditional (rotating) and unconditional
+    4004 : ('jcn'|'isz', n, off, tl)   the jump at byte `off` of a page (including the last two bytes and the
+                                       straddling position FF), target low byte tl in the page of the following instruction"""
+    pool = []
+    if cpu == '6800':
+        ds = DISP8_KEY if tier == 'quick' else [d for d in range(-128, 128)]
+        for i, d in enumerate(ds):
+            if d == -1:
+                continue            # would point into the branch itself
+            for r in range(2):
+                pool.append(('rel', M68_BRANCHES[(2 * i + r) % len(M68_BRANCHES)], d))
+    elif cpu == '87C00':
+        for cond in ('t', 'f'):
+            for d in range(-16, 16):
+                pool.append(('jrs', cond, d))
+        ds = DISP8_KEY if tier == 'quick' else [d for d in range(-128, 128)]
+        for i, d in enumerate(ds):
+            if d == -1:
+                continue
+            pool.append(('jr', T870_JR[i % len(T870_JR)], d))
+            pool.append(('jr', None, d))
+    else:
+        offs = [0xfb, 0xfc, 0xfd, 0xfe, 0xff, 0x00, 0x01, 0x80] if tier == 'quick' else \
+            list(range(0xf0, 0x100)) + list(range(0x00, 0x10)) + [0x40, 0x80, 0xc0]
+        tls = [0x00, 0x01, 0x02, 0x7f, 0x80, 0xfd, 0xfe, 0xff] if tier == 'quick' else \
+            [0x00, 0x01, 0x02, 0x03, 0x0f, 0x10, 0x7f, 0x80, 0x81, 0xef, 0xf0, 0xfc, 0xfd, 0xfe, 0xff]
+        i = 0
+        for off in offs:
+            for tl in tls:
+                pool.append(('jcn', i % 16, off, tl))
+                pool.append(('isz', (i * 7 + 3) % 16, off, tl))
+                i += 1
+    return pool
+
+
+def build_edge_program(cpu, rng, specs):
+    """four boundary situations per image, each in a routine of its own (an entry point each):
+       one-byte no-operation instructions in front of and behind the jump make every address around it an
+       instruction boundary, so the jump can be given any displacement; the routine ends in a return"""
+    c = CPUS[cpu]
+    isa = c15_isa
+    items = []
+    blocks = []
+    limit = c['limit']
+
+    def add(isad, addr, routine, first=False, tidx=None):
+        it = Ins()
+        it.isa = isad
+        it.addr = addr
+        it.routine = routine
+        it.first = first
+        it.tidx = tidx
+        items.append(it)
+        return len(items) - 1
+
+    if cpu == '4004':
+        pages = rng.sample([1, 3, 5, 7, 9, 11, 13], len(specs))
+        for r, (spec, page) in enumerate(zip(specs, pages)):
+            kind, n, off, tl = spec
+            a = (page << 8) | off if off >= 0x80 else ((page + 1) << 8) | off
+            t = ((a + 2) & 0xf00) | tl
+            if t == a + 1:
+                t = a + 2          # the second byte of the jump is no instruction: take the instruction behind it
+            np_, nq = rng.randrange(1, 4), rng.randrange(1, 4)
+            lo, e = a - np_, a + 2 + nq         # e: address of the return
+            if a - 12 <= t < lo:
+                lo = t
+            if e < t <= e + 12:
+                e = t + 1
+            cells = {}
+            for x in range(lo, e):
+                if x not in (a, a + 1):
+                    cells[x] = add(isa.i4004_nop(), x, r, first=(x == lo))
+            j = add(isa.i4004_jcn(n, rng.choice(['jcn', 'jcm'])) if kind == 'jcn' else isa.i4004_isz(n), a, r, first=(a == lo))
+            cells[a] = j
+            cells[e] = add(isa.i4004_bbl(rng.randrange(16)), e, r)
+            order = sorted(cells)
+            blocks.append((lo, [cells[x] for x in order]))
+            if t in cells:
+                items[j].tidx = cells[t]
+            else:
+                # the target lies elsewhere in the page: a part of its own (a return)
+                k = add(isa.i4004_bbl(rng.randrange(16)), t, r)
+                items[j].tidx = k
+                blocks.append((t, [k]))
+    else:
+        nop = isa.m6800_nop if cpu == '6800' else isa.t870_nop
+        ret = isa.m6800_rts if cpu == '6800' else isa.t870_ret
+        segs = []
+        for spec in specs:
+            if cpu == '6800':
+                jd = isa.m6800_branch(spec[1])
+            elif spec[0] == 'jrs':
+                jd = isa.t870_jrs(spec[1])
+            else:
+                jd = isa.t870_jr(spec[1])
+            d = spec[-1]
+            ln = jd['len']
+            rel = 2 + d                     # target - address of the jump
+            np_ = (-rel if rel < 0 else 0) + rng.randrange(1, 4)
+            nq = (rel - ln + 1 if rel >= ln else 0) + rng.randrange(1, 4)
+            segs.append((jd, rel, np_, nq))
+        # placement: consecutive parts with or without gaps; sometimes across $00FF/$0100 or up to the last address
+        total = sum(np_ + jd['len'] + nq + 1 for jd, rel, np_, nq in segs) + 64 * len(segs)
+        style = rng.randrange(4)
+        if style == 0:
+            pos = limit - total + 64 * len(segs) - 48 * (len(segs) - 1)     # the last routine ends at the last address
+        elif style == 1:
+            pos = rng.choice([0, 0x80, 0xf0])
+        else:
+            pos = rng.randrange(0x100, limit - total - 0x100)
+        for r, (jd, rel, np_, nq) in enumerate(segs):
+            start = pos
+            idxs = []
+            for x in range(np_):
+                idxs.append(add(nop(), pos, r, first=(x == 0)))
+                pos += 1
+            a = pos
+            j = add(jd, a, r)
+            idxs.append(j)
+            pos += jd['len']
+            for x in range(nq):
+                idxs.append(add(nop(), pos, r))
+                pos += 1
+            idxs.append(add(ret(), pos, r))
+            pos += 1
+            t = a + rel
+            for i in idxs:
+                if items[i].addr == t:
+                    items[j].tidx = i
+            assert items[j].tidx is not None
+            blocks.append((start, idxs))
+            pos += 48 if style == 0 else rng.choice([0, 0, 1, 16, 48])
+        # adjacent parts belong to one ORG block
+        merged = []
+        for org, idxs in blocks:
+            if merged and items[merged[-1][1][-1]].addr + 1 == org:
+                merged[-1][1].extend(idxs)
+            else:
+                merged.append((org, list(idxs)))
+        blocks = merged
+    for n, it in enumerate(items):
+        it.label = 'xi_%d' % n
+        it.mn = it.isa['mn']
+        ops = it.isa['text']('{T}')
+        it.text = it.isa['mn'] + ('\t' + ops if ops else '')
+    return blocks, items, [], {'wrap': False, 'all_entries': True}
 
 
 def gold_templates(cpu):
@@ -762,21 +932,6 @@ def assemble_program(cpu, ctx, blocks, items, include, out):
             out.inconc('asl-crash-on-generated-program: %s (property C03)' % a.run.san)
             return None, src
         if a.rc == 0 and a.p is not None:
-            if cpu == '4004' and not any(it.isa for it in items):
-                # same restriction as for the ISA programs: no page-relative jump in the last two bytes of a page
-                # (asl checks ISZ against the page of its second byte and evaluates a forward JCN target as "here"
-                # in the first pass; both are matters of the encoding property C14)
-                sy = asl.symbols(a.trace)
-                edge = []
-                for i, it in enumerate(items):
-                    v = sy.get((it.label.upper(), -1))
-                    if it.kind == 'ins' and not it.dropped and it.mn in ('isz', 'jcn', 'jcm') and v and v[0] == 'I' and (int(v[1], 16) & 0xff) >= 0xfe:
-                        edge.append(i)
-                if edge:
-                    for i in edge:
-                        items[i].dropped = True
-                    out.obs['page_end_jumps_not_generated'] += len(edge)
-                    continue
             return a, src
         lines = src.split('\n')
         # map line number -> item
@@ -817,7 +972,18 @@ def run_case(case, ctx):
 
     # ---- 1. the program
     built = None
-    if srcname == 'isa':
+    if srcname == 'edge':
+        pool = edge_pool(cpu, ctx.tier if ctx.tier in ('quick', 'thorough') else 'quick')
+        core.case_rng(ctx.seed, ID, 0, 'edge-' + cpu).shuffle(pool)
+        k = case['k']
+        specs = [pool[(4 * k + q) % len(pool)] for q in range(4)]
+        built = build_edge_program(cpu, rng, specs)
+        out.sample['boundary_situations'] = [list(map(str, sp)) for sp in specs]
+        for sp in specs:
+            out.sets['boundary_situations_%s' % cpu].add(' '.join(map(str, sp)))
+        srcname = 'isa'          # from here on an ISA program like the others (layout known, second opinion on the image)
+        out.sets['program_sources'].add('%s/edge' % cpu)
+    elif srcname == 'isa':
         for _ in range(20):
             built = build_isa_program(cpu, rng, out)
             if built:
@@ -925,6 +1091,8 @@ def run_case(case, ctx):
     nent = rng.randrange(1, 5)
     chosen = [rstarts[0]] + rng.sample(rstarts[1:], min(len(rstarts) - 1, nent - 1)) if rng.random() < 0.8 else \
         rng.sample(rstarts, min(len(rstarts), nent))
+    if meta.get('all_entries'):
+        chosen = rstarts[:4]
     entries = []      # (argument string, form)
     k = 0
     for it in chosen:
@@ -972,7 +1140,7 @@ def run_case(case, ctx):
         else:
             how = rng.choice(['own', 'p2hex'])
             if how == 'p2hex':
-                r = ctx.run('p2hex', ['prog.p', 'img.hex', '-F', 'Intel', '-l', str(rng.choice([8, 16, 32])), '-q'])
+                r = ctx.run('p2hex', ['prog.p', 'img.hex', '-F', 'Intel', '-l', str(rng.choice([8, 16, 32, 254])), '-q'])
                 got = ihex_read((ctx.read('img.hex') or b'').decode('latin-1')) if (r.rc == 0 and not r.timed_out) else None
                 if got != mem:
                     # what p2hex writes is judged by C06; here it only has to carry the image
@@ -1024,6 +1192,10 @@ def judge(ctx, cpu, tag, route, args, entries, mem, gt, items, lower, seams=()):
                 if arg == m.group(1).strip():
                     form = f + '-entry:'
         opt = re.search(r'invalid option: (\S+)', err)
+        if route == 'hex' and opt and opt.group(1).lower() == '-hexfile':
+            # which kind of hex file?  (the longest record decides whether a line fits a small line buffer)
+            longest = max([len(ln.strip()) for ln in (ctx.read('img.hex') or b'').decode('latin-1').split('\n')] or [0])
+            what += ':longest-line-%s-300-characters' % ('under' if longest < 299 else 'over')
         out.violate('dasl-rejects:%s%s%s' % (form, (opt.group(1) + ':') if opt else '', what),
                     '%s: %s exits with status %s: %s' % (tag, cmd, r.rc, err.strip()[:300]))
         return
@@ -1063,10 +1235,7 @@ def judge(ctx, cpu, tag, route, args, entries, mem, gt, items, lower, seams=()):
     if not attribution_ok:
         out.obs['listing_and_area_list_disagree'] += 1
     if not spans:
-        for key, x, msg in area_findings:
-            out.violate(key, msg)
         out.obs['runs_without_any_area'] += 1
-        return
     # ---- ground truth classification of the lines
     line_at = {}
     for d in lines:
@@ -1127,12 +1296,36 @@ def judge(ctx, cpu, tag, route, args, entries, mem, gt, items, lower, seams=()):
             return 'overtrace:%s:continues-after:%s' % (cpu, shape(cpu, gt[p.addr].text.replace('{T}', 'lab_0000')))
         return 'overtrace:%s:origin-unknown' % cpu
 
+    # ---- does dasl work on the bytes that were loaded?  (its hex dump of every line against the image)
+    for d in lines:
+        lk = load_key(d)
+        if lk:
+            orig = ' '.join('%02X' % mem[y] if y in mem else '--' for y in range(d.addr, d.addr + d.n))
+            out.violate(lk, '%s: %s shows %r with bytes %s at %X, the loaded image has %s there' % (
+                tag, cmd, d.text, d.dump.hex(' ').upper(), d.addr, orig))
+            return              # everything else would only restate this
+    # ---- every entry address that holds an instruction of the program must be disassembled
+    for arg, form in entries:
+        mo = re.match(r'^\((\w+)', arg)
+        if mo:
+            v = parse_number(mo.group(1))
+            w = [mem.get(v), mem.get(v + 1)]
+            e = None if None in w else (((w[0] << 8) | w[1]) if c['wordmsb'] else ((w[1] << 8) | w[0]))
+        else:
+            e = parse_number(arg.split(',')[0])
+        if e is not None and e in gt and not any(s0 <= e <= e0 and k0 == 'code' for s0, e0, k0 in spans):
+            out.violate('entry:%s:nothing-disassembled-at-entry-address' % route,
+                        '%s: %s lists no code area containing the entry address %X (argument %s), where the program has %r; stderr: %s' % (
+                            tag, cmd, e, arg, gt[e].text, err.strip()[:200]))
+            return
     for key, x, msg in area_findings:
         cover = [y for y in lines if y.addr <= x < y.addr + y.n and y.kind == 'stray']
         if cover:
             # dasl was decoding something that is not an instruction of the program: name what sent it there
             key, msg = stray_key(cover[0]), msg + '; line there: %r' % cover[0].text
         out.violate(key, msg)
+    if not spans:
+        return
     names = {}
     vector_names = set()
     for arg, form in entries:
